@@ -97,7 +97,13 @@ pub fn render(input: &str, cfg: &TermCfg) -> String {
 
 /// One JSON document: input, configuration, the SVG and what it must contain.
 pub fn document(id: u64, input: &str, cfg: &TermCfg) -> Result<J, String> {
-    let pal = if cfg.win10 { crate::c10::REF_WIN10 } else { crate::c10::REF_VGA };
+    // "the RGB value the configured palette assigns": the values of the palette that was handed to the renderer,
+    // whatever the shipped constant contains
+    let configured = if cfg.win10 { anstyle_lossy::palette::WIN10_CONSOLE } else { anstyle_lossy::palette::VGA };
+    let mut pal = [(0u8, 0u8, 0u8); 16];
+    for (i, c) in configured.0.iter().enumerate() {
+        pal[i] = (c.0, c.1, c.2);
+    }
     let svg = crate::guarded(|| render(input, cfg))?;
     let (chars, _) = sgr::interpret(input.as_bytes(), UlMode::Select);
     // lines: split at '\n', a '\r' directly before it dropped
